@@ -60,7 +60,7 @@ def overtype (text : List α) (p : Int) (x : List α) : List α :=
 
 /-- the line decomposition: each line WITH its terminator.  `parts` = leftmost split on `sep`.
 Default policy: a text ending in `sep` has no further (empty) line. -/
-def pieces (text sep : List α) (noTrailing : Bool) : List (List α) :=
+def linePieces (text sep : List α) (noTrailing : Bool) : List (List α) :=
   let parts := splitOn text sep
   let k := parts.length - 1
   let terminated := (parts.take k).map (· ++ sep)
@@ -74,7 +74,7 @@ def bareLines (text sep : List α) (noTrailing : Bool) : List (List α) :=
 
 /-- selection of lines [s, e): (before, selected, after) -/
 def selectLines (text sep : List α) (noTrailing : Bool) (s e : Int) : List α × List α × List α :=
-  let ps := pieces text sep noTrailing
+  let ps := linePieces text sep noTrailing
   let (s', e') := normRange ps.length s e
   (joinL (ps.take s'.toNat), joinL ((ps.drop s'.toNat).take (e' - s').toNat), joinL (ps.drop e'.toNat))
 
